@@ -130,6 +130,9 @@ func runHook(c hookCase) harness.Result {
 	if o.Hung || plain.Hung {
 		return harness.Fail("call did not return")
 	}
+	if msg := o.PriorIntact(); msg != "" {
+		return harness.Fail("%s", msg)
+	}
 	labels := []string{"kind:" + c.Kind, fmt.Sprintf("fc%d", c.Req.FC), "terminal:" + c.Terminal}
 	if c.Prior != "" {
 		labels = append(labels, "after-earlier-call")
